@@ -6,7 +6,7 @@
    them is that every row (a, text, n, adv) of skip_literal has n <= a, adv <= a and
    n <= strlen(text) + 1  (checked by computation on the regenerated rows). *)
 From Coq Require Import Arith NArith List Lia Bool.
-From LCP Require Import Base.CheckedMem Util.Json.
+From LCP Require Import Base.CheckedMem Gen.Repo_json Util.Json Util.JsonRepo.
 Import ListNotations.
 Local Open Scope res_scope.
 
@@ -316,3 +316,38 @@ Section Safe.
     apply find_loop_ok; lia.
   Qed.
 End Safe.
+
+(* ================= for the tables regenerated from util/json.c ================= *)
+
+Lemma repo_literals_ok : forallb lit_row_ok json_literals = true.
+Proof. vm_compute. reflexivity. Qed.
+
+(* json_find on ANY bytes with ANY key string: returns, and the pointer is inside [buf, end] *)
+Theorem json_find_total buf key :
+  exists q, json_find_c buf key = Ok q /\ q <= length buf.
+Proof.
+  apply okres_inv. unfold json_find_c.
+  exact (json_find_ok json_numchars json_wsbytes json_literals json_escapes true buf repo_literals_ok key).
+Qed.
+
+Corollary json_find_no_fault buf key :
+  json_find_c buf key <> Fault /\ json_find_c buf key <> OutOfFuel /\ json_find_c buf key <> AssertFail.
+Proof.
+  destruct (json_find_total buf key) as (q & E & _). rewrite E. repeat split; discriminate.
+Qed.
+
+(* the same for skip_value started anywhere inside the buffer *)
+Theorem skip_value_total buf p : p <= length buf ->
+  exists q, skip_value_c buf p = Ok q /\ p <= q <= length buf.
+Proof.
+  intros H. apply okres_inv. unfold skip_value_c.
+  exact (skip_value_ok json_numchars json_wsbytes json_literals true buf repo_literals_ok p H).
+Qed.
+
+(* regression: the code before the repair (no end test after a comma in skip_object) formed
+   end + 1 on the 12 bytes  {"x":{"a":1,  searched for "y"; the code as it is now does not *)
+Definition f1_witness : list N := [123; 34; 120; 34; 58; 123; 34; 97; 34; 58; 49; 44]%N.
+Example old_skip_object_overread : json_find_old f1_witness [121%N] = Fault.
+Proof. vm_compute. reflexivity. Qed.
+Example now_no_overread : json_find_c f1_witness [121%N] = Ok 12.
+Proof. vm_compute. reflexivity. Qed.
